@@ -90,8 +90,9 @@ def judge_hdlc(cfg, noise: bytes, suffix: bytes, sent, spec, ctx, case) -> bool:
     stream = noise + suffix
     frames, exc = hdlc_mon.run(cfg, splits.chunks(stream, spec))
     if exc is not None:
-        ctx.count("executions_not_judged_because_read_raised")
-        return False
+        # (C14 decides whether read() may raise at all; here it means that the clean frames behind the noise were not delivered)
+        ctx.violation(f"C16:hdlc:{'stuffing' if cfg[0] else 'plain'}:read-raised-clean-messages-not-delivered:{p1_mon.where(exc)}", f"cfg {cfg}, noise {case['noise_kind']} ({len(noise)} B), split {spec[0]}: read() raised {exc!r:.120}; {len(sent)} clean frames followed the noise", dict(case, split=list(spec)))
+        return True
     returned = [(o["bytes"], bool(o["valid"])) for o in frames]
     req = resync.required_hdlc(cfg, sent)
     for kind, msg in resync.judge_delivery(req, [f for f, _ in sent], returned):
@@ -117,9 +118,9 @@ def judge_p1(noise: bytes, suffix: bytes, sent, spec, ctx, case) -> bool:
     stream = noise + suffix
     obs, exc, _ = p1_mon.run(splits.chunks(stream, spec))
     if exc is not None:
-        ctx.count("executions_not_judged_because_read_raised")
-        ctx.seen("exceptions(decided by C14)", p1_mon.where(exc))
-        return False
+        # (C14 decides whether read() may raise at all; here it means that the clean readouts behind the noise were not delivered)
+        ctx.violation(f"C16:p1:read-raised-clean-messages-not-delivered:{p1_mon.where(exc)}", f"noise {case['noise_kind']} ({len(noise)} B), split {spec[:2]}: read() raised {exc!r:.120}; {len(sent)} clean readouts followed the noise", dict(case, split=list(spec)))
+        return True
     returned = [(o["bytes"], o["valid"] is True) for o in obs]
     if any(o["exceptions"] for o in obs):
         ctx.count("readouts_whose_accessors_raised(decided by C14)")
